@@ -64,14 +64,15 @@ RecordedOk(metric, q, v, d) == IF metric = "cosine" THEN CosRecordedOk(q, v, d) 
 \* g = [ep |-> id or 0, maxl |-> n, nodes |-> << <<id, <<layer0 list, layer1 list, ...>> >>, ... >>]
 GIds(g) == {g.nodes[i][1] : i \in DOMAIN g.nodes}
 Layers(g, x) == (CHOOSE i \in DOMAIN g.nodes : g.nodes[i][1] = x) 
-NbrSeq(g, x, lc) == LET ls == g.nodes[Layers(g, x)][2] IN IF lc + 1 <= Len(ls) THEN ls[lc + 1] ELSE <<>>
+\* a link to an id that is not in the graph (dangling) leads nowhere: the code gives such a node distance f32::MAX
+NbrSeq(g, x, lc) == IF x \notin GIds(g) THEN <<>> ELSE LET ls == g.nodes[Layers(g, x)][2] IN IF lc + 1 <= Len(ls) THEN ls[lc + 1] ELSE <<>>
 RECURSIVE ReachR(_, _, _)
 ReachR(g, S, k) == IF k = 0 THEN S ELSE ReachR(g, S \cup UNION {Rng(NbrSeq(g, x, 0)) : x \in S}, k - 1)
 Reach0(g, x) == ReachR(g, {x}, Len(g.nodes))
 \* one pass of search_layer_single over the neighbour list of x
 GreedyStep(g, vecs, metric, q, x, lc) ==
-  LET L == NbrSeq(g, x, lc) IN
-  IF L = <<>> THEN x
+  LET L == SelectSeq(NbrSeq(g, x, lc), LAMBDA y : y \in DOMAIN vecs) IN
+  IF L = <<>> \/ x \notin DOMAIN vecs THEN x
   ELSE LET best == CHOOSE i \in DOMAIN L : /\ \A j \in DOMAIN L : ~Less(metric, q, vecs[L[j]], vecs[L[i]])
                                            /\ \A j \in DOMAIN L : j < i => Less(metric, q, vecs[L[i]], vecs[L[j]])
        IN IF Less(metric, q, vecs[L[best]], vecs[x]) THEN L[best] ELSE x
@@ -102,7 +103,7 @@ SearchOk(g, vecs, metric, q, k, ef, res) ==
   IF vecs = <<>> THEN res = <<>>
   ELSE /\ Basic(vecs, metric, q, k, res)
        /\ \E s \in Starts(g, vecs, metric, q) :
-            LET R == Reach0(g, s) IN
+            LET R == Reach0(g, s) \cap DOMAIN vecs IN      \* (a dangling link reaches nothing that is present)
             /\ Len(res) = Min2(k, Cardinality(R))
             /\ \A i \in DOMAIN res : res[i][1] \in R
             /\ (Max2(ef, k) >= Cardinality(R) => ExactWithin(vecs, metric, q, k, res, R))
